@@ -52,7 +52,7 @@ LEVEL_TEXT = (
     'visits <= rows*(tries+1) and requests <= that * 2*(max_redirects+1); insertion / de-duplication of discovered URLs is outside this model (C14, C01) and the '
     'whole-application claim is carried by the end-to-end runs (every crawl must exit by itself).')
 LEVEL_NOTE = ('Trusted: Coq kernel + vm_compute; translator + MiniPy interpreter; the hand-written visit model (tied end to end on every run); '
-              'hooks/coprocessors/FTP outside the model. Connection-level failures are observed through dropped connections only.')
+              'hooks/coprocessors/FTP outside the model. Connection-level failures: dropped connections, refused connections and names that do not resolve (with the retry options).')
 TECHNIQUE = ('Coq proof: translated RedirectTracker proved equal to the model tracker; potential-function induction over the request loop for an arbitrary '
              'server strategy; induction over the check-outs of a row; vm_compute model run against the real application on scripted adversarial servers')
 
@@ -158,7 +158,13 @@ def gen_item(r, ns, tries, maxr, pw):
     return h1, h2, kind
 
 
-def gen_crawl(r):
+# configurations every run contains (a random draw hits each of them only in a few crawls out of forty): robots.txt of the start
+# host failing with 5xx / with rules, and an unreachable start host of either kind
+FORCED = [{'robots_h1': '503'}, {'unreach': 'refused'}, {'unreach': 'nxdomain'}, {'robots_h1': 'rules'}, {'robots_h1': '503'}]
+
+
+def gen_crawl(r, force=None):
+    force = force or {}
     maxr = r.choice([0, 1, 1, 2, 2, 3, 4])
     tries = r.choice([1, 2, 2, 3])
     pw = r.random() < 0.45
@@ -166,24 +172,40 @@ def gen_crawl(r):
     n_items = r.randrange(2, 5)
     site = {'h1': {}, 'h2': {}}
     items = []
+    # a fifth of the crawls have one start URL on a host that cannot be reached at all - connections refused, or the name does not
+    # resolve - with the option that makes wpull retry such failures: a URL that keeps failing THIS way is bounded by --tries too
+    unreach = r.choice(['refused', 'nxdomain']) if r.random() < 0.2 else None
+    if force:
+        unreach = force.get('unreach')
+    unreachable = {}
     for k in range(n_items):
         ns = 'u%d' % k
+        if unreach and k == n_items - 1:
+            host = 'h3'
+            site[host] = {'/%s/s' % ns: {'seq': [{'reset': True}], 'cycle': True}}
+            unreachable[host] = {'kind': unreach, 'path': '/%s/s' % ns}
+            items.append({'ns': ns, 'kind': unreach, 'host': host})
+            continue
         h1, h2, kind = gen_item(r, ns, tries, maxr, pw)
         site['h1'].update(h1)
         site['h2'].update(h2)
         items.append({'ns': ns, 'kind': kind})
-    args = ['http://h1:{PORT}/%s/s' % it['ns'] for it in items]
+    args = ['http://%s:{PORT}/%s/s' % (it.get('host', 'h1'), it['ns']) for it in items]
     args += ['--max-redirect', str(maxr), '--tries', str(tries), '--concurrent', '1']
+    if unreach:
+        args.append('--retry-connrefused' if unreach == 'refused' else '--retry-dns-error')
     # robots.txt handling on in a third of the crawls: every request after the first of a visit (redirect target, repeat with
     # credentials) is robots-checked for ITS origin; rules disallow some of the scripted paths, h2 may answer 503 (fetch fails)
     robots = None
-    if r.random() < 0.35:
+    if (r.random() < 0.35 or force.get('robots_h1')) and not unreach:
         robots = {}
         args += ['-r', '-l', '1']           # wpull switches robots.txt handling off unless the crawl is recursive
         for host in ('h1', 'h2'):
             paths = sorted(site[host])
             # a robots.txt that keeps answering 5xx postpones every URL of the origin; each postponed visit counts against --tries
             kind = r.choice(['404', 'rules', 'rules', '503'] if host == 'h2' else ['404', '404', 'rules', 'rules', 'rules', '503'])
+            if host == 'h1' and force.get('robots_h1'):
+                kind = force['robots_h1']
             deny = sorted(set(r.choice(paths) for _ in range(r.randrange(1, 4)))) if (kind == 'rules' and paths) else []
             robots[host] = {'kind': kind, 'deny': deny}
             if kind == '404':
@@ -201,7 +223,7 @@ def gen_crawl(r):
     # a crawl that sends more than every bound allows is cut off by the server (runaway loops must not stall the check)
     cap = n_items * (tries + 1) * 2 * (maxr + 2) + 10
     return {'args': args, 'site': site, 'items': items, 'max_redirect': maxr, 'tries': tries, 'password': pw, 'strong': strong,
-            'robots': robots, 'pre_hooks': ['harness.fakes.filters_site.install'], 'kill_at_request': cap}
+            'robots': robots, 'pre_hooks': ['harness.fakes.filters_site.install'], 'kill_at_request': cap, 'unreachable': unreachable}
 
 
 # ----------------------------------------------------------------------------------------------
@@ -290,7 +312,7 @@ def coq_crawl(spec, res, typed, jt, parses):
     checks, counts = [], []
     rows = {row['url']: row for row in res['rows']}
     for it in spec['items']:
-        start = 'http://h1:%d/%s/s' % (port, it['ns'])
+        start = 'http://%s:%d/%s/s' % (it.get('host', 'h1'), port, it['ns'])
         seq = [_req_url(q) for q in res['requests'] if q['path'].startswith('/%s/' % it['ns'])]
         row = rows.get(start, {'status': 'missing', 'try_count': -1})
         run = ('run_visits J_%s OK_%s cfg_%s (consult_model L_%s a_%s hs_%s) R_%s script_%s %s %d [] {| it_status := ITodo; it_tries := 0 |}' % (
@@ -346,7 +368,7 @@ def property_on_log(spec, res, visit_counts=None):
     rows = {row['url']: row for row in res['rows']}
     for it in spec['items']:
         ns = it['ns']
-        start = 'http://h1:%d/%s/s' % (res['port'], ns)
+        start = 'http://%s:%d/%s/s' % (it.get('host', 'h1'), res['port'], ns)
         seq = [q for q in res['requests'] if q['path'].startswith('/%s/' % ns)]
         row = rows.get(start)
         if row is None:
@@ -454,7 +476,7 @@ def run_specs(ctx, specs, with_model=True):
                 s, res, _ = good[gi]
                 if k in failset:
                     seq = [_req_url(q) for q in res['requests'] if q['path'].startswith('/%s/' % it['ns'])]
-                    row = {r_['url']: r_ for r_ in res['rows']}.get('http://h1:%d/%s/s' % (res['port'], it['ns']), {})
+                    row = {r_['url']: r_ for r_ in res['rows']}.get('http://%s:%d/%s/s' % (it.get('host', 'h1'), res['port'], it['ns']), {})
                     disagreements.append({'item': it, 'args': s['args'], 'impl_requests': [u.split('/', 3)[3] for u in seq],
                                           'impl_status': row.get('status'), 'impl_try_count': row.get('try_count'),
                                           'model_visit_counts': groups[k] if k < len(groups) else None,
@@ -469,7 +491,7 @@ def run_specs(ctx, specs, with_model=True):
 
 
 def _plain_spec(s):
-    return {k: s[k] for k in ('args', 'site', 'items', 'max_redirect', 'tries', 'password', 'strong', 'robots', 'pre_hooks', 'kill_at_request') if k in s}
+    return {k: s[k] for k in ('args', 'site', 'items', 'max_redirect', 'tries', 'password', 'strong', 'robots', 'pre_hooks', 'kill_at_request', 'unreachable') if k in s}
 
 
 def pregen(ctx):
@@ -485,7 +507,7 @@ def correspondence(ctx):
                 'disagreements': [{'coq_error': log[-1500:]}], 'impl_violations': []}
     r = common.rng('c18')
     n = 40 if not ctx.thorough else 600
-    specs = [gen_crawl(r) for _ in range(n)]
+    specs = [gen_crawl(r, FORCED[i] if i < len(FORCED) else None) for i in range(n)]
     results, disagreements, violations, counts = run_specs(ctx, specs)
     kinds, nontriv, total_items, total_requests = {}, set(), 0, 0
     maxima = {'requests_per_visit': 0}
